@@ -109,6 +109,10 @@ func init() {
 				}
 				spec.IgnoreDropped = true
 				spec.Interactive, spec.Verbose = r.IntN(3) == 0, r.IntN(4) == 0
+				if i%5 == 3 {
+					// the iteration handles log into a logger that is disabled for every level
+					spec.Verbose, spec.QuietLogger = true, true
+				}
 				p := c01RunParams{Spec: spec, FailEvery: pick(r, 0, 1, 2, 3, 10), Body: pick(r, "instant", "spin", "sleep", "yield"), Snapshots: i%2 == 0, Reps: 1}
 				if mode == "filespan" {
 					p.Body, p.Snapshots, p.FailEvery = "span", false, pick(r, 2, 3)
@@ -123,7 +127,7 @@ func init() {
 						p.Spec.Labels[fmt.Sprintf("label_%d", k)] = fmt.Sprintf("value %d", k)
 					}
 				}
-				p.Desc = fmt.Sprintf("mode=%s c=%d dur=%dms limit=%d failEvery=%d body=%s harnessSnapshots=%v labels=%d", mode, c, spec.MaxDurationMS, spec.MaxIterations, p.FailEvery, p.Body, p.Snapshots, len(p.Spec.Labels))
+				p.Desc = fmt.Sprintf("mode=%s c=%d dur=%dms limit=%d failEvery=%d body=%s harnessSnapshots=%v labels=%d quietLogger=%v", mode, c, spec.MaxDurationMS, spec.MaxIterations, p.FailEvery, p.Body, p.Snapshots, len(p.Spec.Labels), spec.QuietLogger)
 				kind := "run"
 				if p.Snapshots {
 					kind = "integration"
@@ -423,8 +427,11 @@ func spinNS(ns int64) {
 	}
 }
 
+var c01Flavours = []int{engine.BFail, engine.BFailNow, engine.BPanicString, engine.BErrorf, engine.BAssert, engine.BRequire, engine.BError, engine.BFatal, engine.BOtherFailNow, engine.BErrorNil, engine.BOtherRequire}
+
 func c01Scenario(p *c01RunParams, passed, failed *atomic.Int64, salt uint64) f1testing.ScenarioFn {
 	return func(t *f1testing.T) f1testing.RunFn {
+		engine.OtherHandle.Store(t)
 		return func(t *f1testing.T) {
 			id := engine.IDOf(t)
 			if p.Body == "latemark" {
@@ -453,14 +460,10 @@ func c01Scenario(p *c01RunParams, passed, failed *atomic.Int64, salt uint64) f1t
 			bodyWork(p.Body, id*2654435761+salt)
 			if p.FailEvery > 0 && id%uint64(p.FailEvery) == 0 {
 				failed.Add(1)
-				switch id % 3 {
-				case 0:
-					t.Fail()
-				case 1:
-					t.FailNow()
-				default:
-					panic("planned")
-				}
+				// every way of failing counts once as failed: marks, stopping marks, panics, marks that log,
+				// a stopping failure raised through the handle captured in setup, Error(nil)
+				fl := c01Flavours[(id/uint64(p.FailEvery))%uint64(len(c01Flavours))]
+				engine.Behave(t, fl)
 				return
 			}
 			passed.Add(1)
